@@ -197,7 +197,7 @@ BAD_NAMES = ["nosuch", "nosuch.mpd", "x.mpd", "hand_made", "..", "a b", "é", "%
 BAD_INTS = [0, 1, 999999, 2 ** 31, 2 ** 63, 2 ** 64 + 1, 10 ** 30]
 
 
-def fill_rule(rule, P: dict, rng, valid: bool) -> str | None:
+def fill_rule(rule, P: dict, rng, valid: bool, force: dict | None = None) -> str | None:
     """one concrete path for a werkzeug Rule; valid=True picks existing objects
     that belong together, valid=False mixes in non-existing / out-of-range values"""
     conv = {k: type(v).__name__ for k, v in rule._converters.items()}
@@ -282,6 +282,8 @@ def fill_rule(rule, P: dict, rng, valid: bool) -> str | None:
         files = P["pfiles"].get(args["ppk"])
         if files:
             args["filename"] = rng.choice(files)
+    if force:
+        args.update({k: v for k, v in force.items() if k in conv})
     try:
         adapter_path = rule.build(args, append_unknown=False)
     except Exception:
@@ -536,7 +538,8 @@ def requested_codes(query: list) -> set:
 def violates(res: Result, query: list) -> str | None:
     """the property text: no 5xx other than a requested one, no unbounded run"""
     if res.timed_out:
-        return f"no answer within {TIME_LIMIT:.0f} s (or the process grew by more than {MEM_LIMIT >> 20} MiB)"
+        return (f"the request did not finish within {max(1, round(res.seconds))} s (or the process grew by more than "
+                f"{MEM_LIMIT >> 20} MiB)")
     if res.status == CLIENT_ERROR:
         return f"exception outside the application's error handling: {res.exc}"
     if res.status >= 500 and res.status not in requested_codes(query):
@@ -714,3 +717,23 @@ def stored_unusable(d, rows: list) -> bool:
                 if k in groups[name] and _entry_unusable(groups[name][k], x, True):
                     return True
     return False
+
+
+# ------------------------------------------------------------------ unbounded integers in the PATH
+#
+# every route that takes an integer from the path ($Number$, $Time$ on /dash and /mps, publish time of a patch,
+# primary keys): values far beyond what a float holds exactly.  k * 10^33 + odd for several k, so that the float
+# quotient by any duration rounds down for some and up for others.
+
+PATH_SENTINEL = 909090909
+PATH_INTS = [str(v) for v in (
+    2 ** 53 - 1, 2 ** 53 + 1, 2 ** 63 - 1, 2 ** 63 + 1, 2 ** 64, 10 ** 30 + 77, 3 * 10 ** 33 + 77,
+    10 ** 33 + 3, 2 * 10 ** 33 + 5, 4 * 10 ** 33 + 9, 5 * 10 ** 33 + 11, 6 * 10 ** 33 + 13, 7 * 10 ** 33 + 15,
+    9 * 10 ** 33 + 19, 10 ** 60 + 1)] + ["1" + "0" * 4299, "9" * 4301]
+PATH_INTS_SHORT = [PATH_INTS[i] for i in (1, 4, 6, 9, 15, 16)]
+
+
+def int_args(rule) -> list:
+    from werkzeug.routing import IntegerConverter
+    return [n for n, v in rule._converters.items()
+            if isinstance(v, IntegerConverter) or n in ("segment_num", "segment_time", "publish")]
